@@ -95,6 +95,9 @@ def build_overlay(prop, unit, native):
         ov[os.path.join(REPO, virt)] = outp
     if native:
         ov[os.path.join(REPO, "internal/vrt/vrt.go")] = os.path.join(VERIF, "harness/vrt/vrt_pkg.go.txt")
+        hooked = hook_byteslice(os.path.join(REPO, "pkg/pool/byteslice/byteslice.go"), os.path.join(wd, "rw_byteslice_hooked.go"))
+        if hooked and os.path.join(REPO, "pkg/pool/byteslice/byteslice.go") not in ov:
+            ov[os.path.join(REPO, "pkg/pool/byteslice/byteslice.go")] = hooked
         tab = os.path.join(wd, "zz_vtable.go")
         with open(tab, "w") as f:
             f.write("package %s\n\nvar vHarnessTable = map[string]func(){\n" % pk)
@@ -106,6 +109,22 @@ def build_overlay(prop, unit, native):
         open(tst, "w").write(open(os.path.join(VERIF, "harness/vrt/vreplay_test.go.txt")).read().replace("package PKG", "package " + pk))
         ov[os.path.join(main_dir, "zz_vreplay_test.go")] = tst
     return ov, harnesses
+
+
+def hook_byteslice(src, out):
+    """replay-time instrumentation (scratch copy, regenerated from the current tree): Pool.Get/Put report to the
+    ownership tracker in internal/vrt so that the ghost 'released' oracle can be confirmed natively"""
+    try:
+        s = open(src).read()
+    except OSError:
+        return None
+    if "func (p *Pool) Get(size int) []byte {" not in s or "func (p *Pool) Put(buf []byte) {" not in s:
+        return None
+    s = s.replace("func (p *Pool) Get(size int) []byte {", "func (p *Pool) Get(size int) []byte {\n\tb := p.vOrigGet(size)\n\tvrt.NoteGet(b)\n\treturn b\n}\n\nfunc (p *Pool) vOrigGet(size int) []byte {", 1)
+    s = s.replace("func (p *Pool) Put(buf []byte) {", "func (p *Pool) Put(buf []byte) {\n\tvrt.NotePut(buf)", 1)
+    s = s.replace("import (", "import (\n\t\"github.com/panjf2000/gnet/v2/internal/vrt\"", 1)
+    open(out, "w").write(s)
+    return out
 
 
 def dump_unit(prop, unit):
@@ -307,6 +326,10 @@ def check(prop, tier, only=None):
                 v["tape_path"] = tp
                 confirmed = (v["kind"] == "assert" and verdict == "ASSERT-FAIL " + v["label"]) or \
                             (v["kind"] == "panic" and verdict.startswith("PANIC"))
+                if v["kind"] == "panic" and v["label"].startswith("unsafe.") and (verdict.startswith("ASSERT-FAIL") or verdict.startswith("PANIC")):
+                    # forming an out-of-allocation slice is undefined behaviour, not a Go panic: the native run cannot
+                    # panic at that point; it is confirmed by the failure it causes downstream in the same replay
+                    confirmed = True
                 if confirmed:
                     if kf:
                         known_printed.append((kf, v, r["harness"]))
